@@ -254,6 +254,135 @@ pub fn eval_program(which: Which, mods: &[(String, Module)], layout: Layout) -> 
 
 /// Every use slot placed in each expression context of `USE_WRAPS`: single-statement skeletons
 /// (pairs too in the thorough tier) x contexts x every name assignment.
+const SHADOW_M: &str = "pub type R { R(fld: Int, other: Int) }\npub const c = 1\npub fn show(r: R) -> Int { r.fld }\npub fn with(cb: fn(R) -> Int) -> Int { cb(R(1, 2)) }\n";
+
+/// Programs whose bindings are known by construction: a local spelled like an imported module
+/// (or not) bound by each kind of binder, then used alone, as the base of a field access, as an
+/// argument, under operators. Marks: `«b:x»` the binder, `«u:x»` a use of it, `«n:m»` the module,
+/// `«f:fld»` a field of `m.R`.
+fn shadowing_programs() -> Vec<(String, String)> {
+    let mut out = vec![];
+    for l in ["m", "q"] {
+        let binders: Vec<(&str, String)> = vec![
+            ("parameter", format!("pub fn user(«b:{l}»: «n:m».R) {{ {{PRE}}{{USE}} }}")),
+            ("let", format!("pub fn user() {{ {{PRE}}let «b:{l}» = «n:m».R(1, 2) {{USE}} }}")),
+            ("let tuple pattern", format!("pub fn user() {{ {{PRE}}let #(«b:{l}», _) = #(«n:m».R(1, 2), 0) {{USE}} }}")),
+            ("let constructor pattern", format!("pub fn user(w: Wrap) {{ {{PRE}}let Wrap(inner: «b:{l}») = w {{USE}} }}")),
+            ("case clause", format!("pub fn user() {{ {{PRE}}case «n:m».R(1, 2) {{ «b:{l}» -> {{USE}} }} }}")),
+            ("case clause with block", format!("pub fn user() {{ {{PRE}}case «n:m».R(1, 2) {{ «b:{l}» -> {{ {{USE}} }} }} }}")),
+            ("list pattern", format!("pub fn user(rs: List(«n:m».R)) {{ {{PRE}}case rs {{ [«b:{l}», ..] -> {{USE}} _ -> 0 }} }}")),
+            ("as pattern", format!("pub fn user(w: Wrap) {{ {{PRE}}case w.inner {{ «n:m».R(..) as «b:{l}» -> {{USE}} }} }}")),
+            ("lambda parameter", format!("pub fn user() {{ {{PRE}}let g = fn(«b:{l}»: «n:m».R) {{ {{USE}} }} g }}")),
+            ("use binder", format!("pub fn user() {{ {{PRE}}use «b:{l}» <- «n:m».with {{USE}} }}")),
+        ];
+        let uses: Vec<(&str, String)> = vec![
+            ("alone", format!("«u:{l}»")),
+            ("field access", format!("«u:{l}».«f:fld»")),
+            ("two field accesses", format!("«u:{l}».«f:fld» + «u:{l}».«f:other»")),
+            ("argument of a local function", format!("own(«u:{l}»)")),
+            ("field access as argument", format!("num(«u:{l}».«f:fld»)")),
+            ("field access under a prefix operator", format!("num(-«u:{l}».«f:fld»)")),
+            ("argument of a module function", format!("«n:m».show(«u:{l}»)")),
+            ("next to a module constant", format!("«u:{l}».«f:fld» + «n:m».c")),
+            ("in a nested block after another let", format!("{{ let z = «u:{l}».«f:fld» z + «u:{l}».«f:other» }}")),
+            ("piped", format!("«u:{l}» |> own")),
+        ];
+        for (bn, b) in &binders {
+            for (un, u) in &uses {
+                // with and without statements before the binding (the binder then is not the block's first statement)
+                for (pn, pre) in [("first statement", ""), ("after a statement", "let before = «n:m».c ")] {
+                    let f = b.replace("{PRE}", pre).replace("{USE}", u);
+                    let text = format!("import m\npub type Wrap {{ Wrap(inner: «n:m».R) }}\n{f}\nfn own(r: «n:m».R) {{ r.«f:fld» }}\nfn num(n: Int) {{ n }}\n");
+                    out.push((format!("local `{l}`|{bn}|{un}|{pn}"), text));
+                }
+            }
+        }
+    }
+    out
+}
+
+fn strip_marks5(tpl: &str) -> (String, Vec<(usize, usize, char, String)>) {
+    let mut text = String::new();
+    let mut marks = vec![];
+    let mut rest = tpl;
+    while let Some(i) = rest.find('«') {
+        text.push_str(&rest[..i]);
+        let after = &rest[i + '«'.len_utf8()..];
+        let j = after.find('»').unwrap();
+        let inner = &after[..j];
+        let kind = inner.chars().next().unwrap();
+        let name = &inner[2..];
+        marks.push((text.len(), text.len() + name.len(), kind, name.to_string()));
+        text.push_str(name);
+        rest = &after[j + '»'.len_utf8()..];
+    }
+    text.push_str(rest);
+    (text, marks)
+}
+
+/// By-construction layer: locals spelled like an imported module (C05 "a local shadows
+/// everything else of that spelling; the label after it is the field of its type").
+fn shadowing_locals_layer(rep: &mut Report) {
+    let progs = shadowing_programs();
+    let res: Vec<(u64, Vec<Violation>)> = progs
+        .par_iter()
+        .map(|(name, tpl)| {
+            let (text, marks) = strip_marks5(tpl);
+            let ws = Workspace::single(&[("main", text.as_str()), ("m", SHADOW_M)]);
+            let files = ws.files();
+            let host = ws.host();
+            let an = host.snapshot();
+            let binder = marks.iter().find(|m| m.2 == 'b').map(|m| (m.0 as u32, m.1 as u32));
+            let mut v = vec![];
+            let mut n = 0u64;
+            for (s, e, kind, ident) in &marks {
+                n += 1;
+                let got = goto_answer(&an, &files, 0, *s);
+                let want: String;
+                let ok = match (kind, &got) {
+                    ('b', Ok(Some((0, fs, fe, _, _)))) | ('u', Ok(Some((0, fs, fe, _, _)))) => {
+                        want = format!("the binder at {:?}", binder);
+                        binder.map_or(false, |(bs, be)| *fs <= bs && be <= *fe && (*fe - *fs) <= (be - bs) + 2)
+                    }
+                    ('n', Ok(Some((1, 0, 0, _, _)))) => {
+                        want = String::new();
+                        true
+                    }
+                    ('f', Ok(Some((1, fs, fe, _, _)))) => {
+                        want = format!("the field `{ident}` of m.R");
+                        let d = SHADOW_M.find(&format!("{ident}: Int")).unwrap() as u32;
+                        *fs <= d && d + ident.len() as u32 <= *fe && !SHADOW_M[*fs as usize..*fe as usize].contains(',')
+                    }
+                    _ => {
+                        want = match kind { 'b' | 'u' => format!("the binder at {binder:?}"), 'n' => "module m".into(), _ => format!("the field `{ident}` of m.R") };
+                        false
+                    }
+                };
+                if !ok {
+                    let parts: Vec<&str> = name.split('|').collect();
+                    let role = match kind { 'b' => "binder", 'u' => "use of the local", 'n' => "module qualifier", _ => "field label" };
+                    v.push(Violation { class: "wrong-binding".into(), key: format!("shadowing-locals|{}|{}|{}|{role}", parts[0], parts[1], parts[2]), witness: json!({"shadowing_program": name, "offset": s, "text": text}), detail: format!("[{name}] `{ident}` at {s}..{e} ({role}) in {text:?}: go-to-definition gives {got:?} (module index, focus, full), expected {want}") });
+                }
+            }
+            (n, v)
+        })
+        .collect();
+    let mut l = Layer { name: "shadowing-locals".into(), exhaustive: true, ..Default::default() };
+    let mut seen = BTreeSet::new();
+    for (n, vs) in res {
+        l.states += 1;
+        l.executions += n;
+        l.transitions += n;
+        for v in vs {
+            if seen.insert(v.key.clone()) {
+                rep.violation(v);
+            }
+        }
+    }
+    l.bound = format!("{} programs: a local spelled `m` (like the imported module) or `q` x 10 binder kinds (parameter, let, let with tuple / constructor pattern, clause, clause with block, list pattern, as-pattern, lambda parameter, use binder) x 10 uses (alone, base of one / two field accesses, argument, under a prefix operator, next to qualified names, in a nested block, piped) x with / without a statement before the binding; expectation by construction: uses land on the binder, labels on the field of m.R, qualifiers outside the local's scope on the module", progs.len());
+    rep.layer(l);
+}
+
 fn use_positions_layer(rep: &mut Report, tier: Tier) {
     let mut sks = skeletons(Tier::Quick);
     if tier == Tier::Quick {
@@ -478,6 +607,7 @@ pub fn run(which: Which, tier: Tier) -> i32 {
     rep.layer(l);
     if which == Which::C05 {
         use_positions_layer(&mut rep, tier);
+        shadowing_locals_layer(&mut rep);
     }
     if which == Which::C18 {
         dot_layer(&mut rep);
@@ -1063,6 +1193,13 @@ pub fn replay(which: Which, w: &Value) -> Vec<String> {
         let mut rep = Report::new("C18", Tier::Quick);
         dot_layer(&mut rep);
         return rep.violations.iter().filter(|v| Some(v.key.as_str()) == w["case"].as_str()).map(|v| v.detail.clone()).collect();
+    }
+    if let Some(name) = w["shadowing_program"].as_str() {
+        let mut rep = Report::new("C05", Tier::Quick);
+        shadowing_locals_layer(&mut rep);
+        let kind_of = |v: &Violation| v.witness["shadowing_program"].as_str().map(|n| n.split('|').take(3).collect::<Vec<_>>().join("|"));
+        let want = name.split('|').take(3).collect::<Vec<_>>().join("|");
+        return rep.violations.iter().filter(|v| kind_of(v).as_deref() == Some(want.as_str())).map(|v| v.detail.clone()).collect();
     }
     if let Some(name) = w["typed_prefix"].as_str() {
         let Some((_, text, s, e)) = typed_prefix_cases().into_iter().find(|c| c.0 == name) else { return vec!["unknown typed-prefix case".into()] };
